@@ -315,6 +315,25 @@ def gen_cases(rng, tier, search):
             for allow in (False, True):
                 cases.append(mk_imp(allow, "script", 0, ("import", [(name, None), (name, "yy")])))
                 cases.append(mk_imp(allow, "app", 0, ("import", [(name, "a1"), ("os", "o"), (name, "a2")])))
+    # the option is changed (true -> false and false -> true) between two statements of ONE long-lived evaluator: every
+    # statement form x direct / exec / function / class / try / eval(exec) for the names the property is about, one form
+    # for a sample of all names; oracle = the option value at the moment the import statement executes
+    for name in names:
+        core = name in ("os", "os.path", "subprocess", "json", "json.decoder", "math", "homeassistant", "socket", "sys") \
+            or name in PYS_NAMES
+        if not core and rng.random() >= 0.06:
+            continue
+        forms = forms_for(name, pick_attr)
+        for st in (forms if core else [forms[len(name) % len(forms)]]):
+            for allow in (False, True):
+                for ctx in (("script", "app") if core else ("script",)):
+                    cases.append(mk_imp(allow, ctx, 0, st, ctx_allow=not allow))
+                if core:
+                    cases.append(mk_imp(allow, "script", 1, st, ctx_allow=not allow))
+                    for w in (["func"], ["cls"], ["try"], ["evalexec"]):
+                        if wraps_ok(st, w):
+                            cases.append(mk_imp(allow, "script", w, st, ctx_allow=not allow))
+                    cases.append(mk_imp(allow, "script", 0, st, ctx_allow=allow))      # control: option unchanged
     # stubs forms, multi-name forms, from-imports of submodules
     misc_forms = [("from", "stubsx", 0, [("x", None)]),
                   ("import", [("math", None), ("json", "j"), ("os", None), ("re", None)]),
@@ -393,16 +412,28 @@ def gen_cases(rng, tier, search):
     return cases
 
 
-def mk_imp(allow, ctx, depth, st, extra=()):
+def mk_imp(allow, ctx, depth, st, extra=(), ctx_allow=None):
+    """`allow` = the option at the moment the statement executes.  `ctx_allow` (when given) = the option while the
+    global context / evaluator was created and ran its first statement: the SAME long-lived evaluator then executes the
+    statement after the option was changed to `allow` (a function that survives a reload, a Jupyter session)."""
     st = list(st)
     if st[0] == "from":
         st[2] = int(st[2])
     wraps = ["exec"] * depth if isinstance(depth, int) else list(depth)
-    return Case({"kind": "imp", "allow": allow, "ctx": ctx, "wrap": wraps, "stmt": st, "src": wrap(stmt_text(st), wraps, st),
-                 "extra_files": list(extra)},
+    payload = {"kind": "imp", "allow": allow, "ctx": ctx, "wrap": wraps, "stmt": st, "src": wrap(stmt_text(st), wraps, st),
+               "extra_files": list(extra)}
+    if ctx_allow is not None:
+        payload["ctx_allow"] = ctx_allow
+    return Case(payload,
                 None, tags=("imp", "allow" if allow else "restricted", ctx, "wrap:" + ("+".join(wraps) or "direct"),
                             st[0] if st[0] == "import" else (f"from-rel{st[2]}" if st[2] else "from")) +
-                (("stubfiles",) if extra else ()))
+                (("stubfiles",) if extra else ()) +
+                ((f"option-changed:{ctx_allow}->{allow}",) if ctx_allow is not None else ()))
+
+
+# the first statement a long-lived evaluator runs before the option is changed: binds nothing and looks nothing up under
+# either value of the option (C17_stubs_ignored), so what the second statement binds is all there is to see
+FIRST_STMT = ("from", "stubs", 0, [("nothing_at_all", None)])
 
 
 # ------------------------------------------------------------------ running the real code
@@ -420,14 +451,31 @@ def _new_ctx(kind):
     return g, a
 
 
-async def _exec(kind, src):
+async def _exec(kind, src, before=None):
+    """before = (option while the context is created and its first statement runs, source of that statement, option when
+    `src` runs): one evaluator, two statements, the option changed in between"""
+    first = None
+    if before is not None:
+        _S["IE"].set_allow_all_imports(before[0])
     g, a = _new_ctx(kind)
+    if before is not None:
+        first = "ok"
+        try:
+            a.parse(before[1])
+            await a.eval()
+        except BaseException as e:  # pylint: disable=broad-except
+            first = "exc:" + type(e).__name__
+        left = sorted(k for k in g.global_sym_table if not k.startswith("__"))
+        first = sx(["binds"] + [[k, "?"] for k in left]) + " " + first
+        _S["IE"].set_allow_all_imports(before[2])
     exc = None
     try:
         a.parse(src)
         await a.eval()
     except BaseException as e:  # pylint: disable=broad-except
         exc = e
+    if before is not None:
+        g.first_obs = first
     return g, a, exc
 
 
@@ -461,7 +509,10 @@ async def _run_imp(c):
     del S["calls"][:]
     try:
         with patch.object(S["E"], "importlib", _Shim(S)):
-            g, a, exc = await _exec(p["ctx"], p["src"])
+            before = None
+            if p.get("ctx_allow") is not None:
+                before = (p["ctx_allow"], stmt_text(list(FIRST_STMT)), p["allow"])
+            g, a, exc = await _exec(p["ctx"], p["src"], before)
     finally:
         for path in extra_paths:
             os.unlink(path)
@@ -547,6 +598,13 @@ async def _run_imp(c):
         (["from", st[1] or "-", st[2]] + [[n, a or "-"] for n, a in st[3]])
     cname, crel = CTXS[p["ctx"]]
     c.line = "C17 " + sx(["imp", p["allow"], crel or "-", cname, ["files"] + files, ["host"] + host, ["w"] + wraps, mstmt])
+    if p.get("ctx_allow") is not None:
+        # two steps of ONE evaluator (model: runSeq), the option is an input of each step
+        fs = list(FIRST_STMT)
+        first = ["from", fs[1], fs[2]] + [[n, a_ or "-"] for n, a_ in fs[3]]
+        c.impl = g.first_obs + "; " + c.impl
+        c.line = "C17 " + sx(["seq", crel or "-", cname, ["files"] + files, ["host"] + host,
+                              ["steps", [p["ctx_allow"], ["w"], first], [p["allow"], ["w"] + wraps, mstmt]]])
     p["_obs"] = {"exc": type(exc).__name__ if exc else None, "msg": str(exc)[:120] if exc else None, "kind": kind,
                  "binds": binds, "calls": calls, "loaded": sorted(registry.values())}
 
